@@ -215,7 +215,7 @@ func (g *Gen) expr(k Kind, depth int) *Node {
 			return Var(g.pick(vs))
 		}
 		if g.F.XCap {
-			return XCap(g.Stmt(depth - 1)...)
+			return XCap(g.capStmt(depth - 1))
 		}
 		return Var("ok")
 	case KBool:
@@ -372,7 +372,7 @@ func (g *Gen) multi(k Kind, depth int) *Node {
 		case g.F.Pipes && g.pure == 0 && g.chance(6):
 			return Cap(g.pipeline(depth - 1))
 		case g.F.XCap && g.chance(6):
-			return XCap(g.Stmt(depth - 1)...)
+			return XCap(g.capStmt(depth - 1))
 		case g.F.Logic && g.chance(5):
 			return Cap(Stmt(g.logicForm(depth - 1)))
 		case g.F.Fn && g.chance(3):
@@ -519,6 +519,32 @@ func (g *Gen) freshName() string {
 			return n
 		}
 	}
+}
+
+// capStmt: a statement for the inside of a capture: no declarations there (profile, see the
+// scoping note of ElvCore.tla)
+func (g *Gen) capStmt(depth int) *Node {
+	switch g.R.Intn(5) {
+	case 0:
+		if g.F.Exc {
+			return g.failStmt(depth)
+		}
+	case 1:
+		if g.F.Fn {
+			if s := g.callStmt(depth); s != nil {
+				return s
+			}
+		}
+	case 2:
+		if g.F.Logic {
+			return g.logicStmt(depth)
+		}
+	case 3:
+		if g.F.Exc {
+			return g.thrower(depth)
+		}
+	}
+	return g.putStmt(depth)
 }
 
 // Stmt yields one statement, as one or (for a loop with its counter) two pipelines.
